@@ -1,4 +1,20 @@
-"""Reach probes that must be non-zero in a thorough batch (>= 1000 runs)."""
+"""Reach probes that must be non-zero in a thorough batch (>= 1000 runs).
+
+A probe stuck at zero means the workload or the fault mix no longer reaches
+what the oracle needs; the batch then ends as a harness error (exit 2), never
+as a pass.
+"""
+_MODEL_FAULTS = [
+    "fault:order_permute", "fault:partial_update", "fault:protocol_switch",
+    "fault:lr_jump", "fault:keras_fit", "fault:finalize", "fault:crash_soft",
+    "fault:lost_checkpoint", "fault:reload_weights", "fault:global_state_skew",
+    "fault:checkpoint:memory", "fault:checkpoint:weights_h5",
+    "fault:checkpoint:weights_v3", "fault:checkpoint:weights_tf",
+    "fault:checkpoint:full_h5", "fault:checkpoint:keras",
+    "fault:rebuild_from_user_code", "reach:restore_from_non_newest",
+    "reach:second_hop_restore",
+]
+
 REQUIRED = {
     "C07": [
         "reach:scale_zero_at_check",
@@ -7,11 +23,21 @@ REQUIRED = {
         "reach:stale_sign_present",
         "reach:legacy_kernel_before_scale",
         "reach:restore_from_older_snapshot",
+        "reach:scale_entry_became_zero",
         "fault:sign_flip",
         "fault:order_permute",
         "fault:partial_update",
         "fault:protocol_switch",
         "fault:manual_constraint",
         "fault:raw_write",
+        "fault:finalize",
+        "fault:lr_jump",
+        "fault:snapshot_restore",
+    ],
+    "C03": _MODEL_FAULTS + ["reach:stale_sign_present", "check:active"],
+    "C11": _MODEL_FAULTS + [
+        "fault:crash_hard", "fault:hard_restart", "fault:checkpoint:savedmodel",
+        "reach:hard_restart_compared", "restore_compared",
+        "objects_round_tripped",
     ],
 }
